@@ -110,3 +110,11 @@ axiom("not FAILS(EMPTYS())")
 axiom("forall(lambda a, b: FIN(CATS(a, b)) == (FIN(a) and FIN(b)), a='STREAM', b='STREAM', pats=['CATS(a, b)'])")
 axiom("forall(lambda s, k: implies(k >= 0 and (not FIN(s) or k < LEN(SEQOF(s))), CAT(TAKES(s, k), UNIT(NTHS(s, k))) == TAKES(s, k + 1)), s='STREAM', pats=['CAT(TAKES(s, k), UNIT(NTHS(s, k)))'])")
 axiom("OFSEQ(EMPTY()) == EMPTYS()")
+
+# --- lexical path model (pyvc/models.py PathModel2) exposed to contracts ---
+for _n, _a, _r in [("ISABS", ["U"], "bool"), ("HASDD", ["U"], "bool"), ("INSIDE", ["U", "U"], "bool"),
+                   ("PNAME", ["U"], "U"), ("PPARENT", ["U"], "U"), ("NPARTS", ["U"], "int"),
+                   ("PART", ["U", "int"], "U"), ("PPREFIX", ["U", "int"], "U"), ("FRESHNAME", ["U"], "bool")]:
+    ufunc(_n, _a, _r)
+assumption("A-SYMLINK", "no symlinks inside the dataset directory; containment is lexical (Path.resolve is the identity on the paths considered)")
+macro("SAFE", ["p"], "not ISABS(p) and not HASDD(p)")
